@@ -78,4 +78,7 @@ theorem global_first_counterexample :
     (r1.allowRequest true "a" "c" 0).1.global.tokens = 8 := by
   decide +kernel
 
+/-- regenerated from the source on every run: the connection loop takes the client address for per-IP limiting from the peer address as reported (IP.String()) -/
+theorem gen_conn_loop_client_ip : Gen.connLoopClientIPFromPeer = true := by decide
+
 end Props.C19
